@@ -861,6 +861,9 @@ func gen(tier string, r *lib.Rand, emit func(string)) {
 	for _, s := range malformedFixed {
 		e(s)
 	}
+	// Unicode: stray non-ASCII characters and invalid UTF-8 in every position
+	unicodeStream(e)
+	progress("unicode")
 	// every string over a small alphabet
 	alpha := []byte("019abx-+^/ _")
 	maxlen := 4
@@ -958,6 +961,164 @@ func gen(tier string, r *lib.Rand, emit func(string)) {
 	}
 }
 
+// ---------------------------------------------------------------------------------------
+// Unicode stream: a non-ASCII character (or an invalid UTF-8 sequence) is a stray character
+// wherever it stands, whatever its code point or its encoding bytes look like modulo 256.
+
+// lowByteRunes returns runes above U+007F whose code point modulo 256 is b.
+func lowByteRunes(b byte) []rune {
+	var rs []rune
+	for _, base := range []rune{0x100, 0x200, 0x2100, 0x4E00, 0xFF00, 0x10000, 0x1F600, 0x10FF00} {
+		rs = append(rs, base+rune(b))
+	}
+	return rs
+}
+
+// contRunes returns runes whose last UTF-8 byte is 0x80|b&0x3F for b < 0x40 (the encoding byte
+// with the top bit stripped is b), in 2-, 3- and 4-byte encodings.
+func contRunes(b byte) []rune {
+	if b >= 0x40 {
+		return nil
+	}
+	return []rune{0x80 + rune(b), 0x4E00 + rune(b), 0x1F600 + rune(b)}
+}
+
+func unicodeInserts() []string {
+	seen := map[string]bool{}
+	var out []string
+	add := func(s string) {
+		if !seen[s] {
+			seen[s] = true
+			out = append(out, s)
+		}
+	}
+	// (a) operators, (b) digits, x, b, _, hex letters, (c) space and tab: by low byte of the code
+	// point and by stripped encoding byte
+	for _, b := range []byte("*+-/^0123456789xb_af \t") {
+		for _, r := range lowByteRunes(b) {
+			add(string(r))
+		}
+		for _, r := range contRunes(b) {
+			add(string(r))
+		}
+	}
+	// look-alikes: operators, digits, letters of literals, spaces, case-fold orbits
+	for _, r := range []rune{
+		0x00D7, 0x2212, 0xFF0B, 0x00F7, 0x2215, 0x2044, 0xFF0A, 0x2217, 0xFF3E, 0x02C6, 0x2010, 0x2013, 0x2014, 0x207A, 0x207B, 0xFF0D, 0xFF0F, 0x2795, 0x2796, 0x2716,
+		0xFF10, 0xFF11, 0xFF19, 0x0660, 0x0661, 0x0669, 0x06F0, 0x06F1, 0x0966, 0x0967, 0x00B2, 0x00B9, 0x2070, 0x2080, 0x2460, 0x1D7CE, 0x1D7D8,
+		0xFF58, 0xFF38, 0x0445, 0x0425, 0xFF42, 0xFF41, 0xFF46, 0xFF21, 0x0430, 0x0435, 0x03B1, 0xFF3F, 0x203F,
+		0x00A0, 0x1680, 0x2000, 0x2003, 0x2009, 0x200A, 0x200B, 0x2028, 0x2029, 0x202F, 0x205F, 0x3000, 0xFEFF, 0x0085, 0x180E, 0x200E, 0x2060,
+		0x212A, 0x017F, 0x0130, 0x0131, 0x212B, 0x1E9E, 0x00DF, 0xFB00, 0x0345,
+		0x0301, 0x20E3, 0xFE0F, 0xFFFD, 0xFFFE, 0xFFFF, 0x10FFFF, 0xE000, 0xD7FF,
+	} {
+		add(string(r))
+	}
+	// (e) invalid UTF-8: lone continuation bytes (operator/digit/space byte with the top bit
+	// set), lone lead bytes, truncated sequences, overlong encodings of operators, digits and
+	// space, surrogates, beyond U+10FFFF
+	for _, b := range []byte("*+-/^019x_ ") {
+		add(string([]byte{b | 0x80}))
+		add(string([]byte{0xC0 | b>>6, 0x80 | b&0x3F}))             // overlong, 2 bytes
+		add(string([]byte{0xE0, 0x80 | b>>6, 0x80 | b&0x3F}))       // overlong, 3 bytes
+		add(string([]byte{0xF0, 0x80, 0x80 | b>>6, 0x80 | b&0x3F})) // overlong, 4 bytes
+	}
+	for _, q := range []string{"\x80", "\xbf", "\xc2", "\xe4", "\xf0", "\xe4\xb8", "\xf0\x9f\x98", "\xed\xa0\x80", "\xed\xbf\xbf",
+		"\xf4\x90\x80\x80", "\xf8\x88\x80\x80\x80", "\xfe", "\xff", "\xc4", "\xc4\x2b", "\xe4\xb8\x2d", "\xef\xbb\xbf"} {
+		add(q)
+	}
+	return out
+}
+
+var unicodeTemplates = []string{
+	// operator position
+	"2@3", "7 @ 10", "2@10", "2@3+1", "1+2@3", "0x1f@0b11", "2@-3", "2@", "2@@3", "12 @3", "12@ 3", "2*3@4^2",
+	// operand position
+	"@", "@2", "@2+3", "2+@", "2+@3", "-@", "-@2", "2^@", "2 * @ 3",
+	// inside literals
+	"1@0", "1@0+5", "0x@1", "0@x1", "0x1@f", "0b1@0", "0@b1", "2^1@0", "-@1", "0@",
+	// whitespace positions
+	"2 @+ 3", "2 +@ 3", "@ 2+3", "2+3 @", "2+3@", " @ ", "2 @ + 3",
+}
+
+func unicodeStream(e func(string)) {
+	for _, ins := range unicodeInserts() {
+		for _, t := range unicodeTemplates {
+			e(strings.ReplaceAll(t, "@", ins))
+		}
+	}
+	// every code point above U+007F in operator, operand and in-literal position, in-process;
+	// what the oracle rejects is emitted as a case line (plus a thin sample either way)
+	var bad []string
+	n := 0
+	for r := rune(0x80); r <= 0x10FFFF && !tooManyHangs(); r++ {
+		if r >= 0xD800 && r <= 0xDFFF {
+			continue
+		}
+		for ti, t := range []string{"2@3", "@", "1@0", "2 @ 10"} {
+			if ti > 0 && r > 0xFFFF && r%16 != 0 { // astral planes: the other positions thinned
+				continue
+			}
+			s := strings.ReplaceAll(t, "@", string(r))
+			if r%4099 == 0 {
+				e(s)
+			}
+			if len(bad) < 40 && judge(s, safeEval(s)) != "" {
+				bad = append(bad, s)
+			}
+			n++
+		}
+	}
+	fmt.Fprintf(os.Stderr, "c13: swept %d texts with every code point above U+007F in-process, %d rejected by the oracle\n", n, len(bad))
+	for _, s := range bad {
+		e(s)
+	}
+}
+
+// neighbours: perturbations of an expression that must keep or make it an error (non-ASCII
+// characters with the low byte of the byte they replace, stray characters from the Unicode
+// inserts) and plain byte edits.
+func neighbours(c string, r *lib.Rand, emit func(string)) {
+	f := strings.Split(c, " ")
+	if len(f) != 2 || f[0] != "calc" {
+		return
+	}
+	s := lib.ParseBytes(f[1])
+	out := func(b []byte) {
+		if t := string(b); !tooBig(t) {
+			emit(calcCase(t))
+		}
+	}
+	ins := unicodeInserts()
+	bases := []rune{0x100, 0x200, 0x4E00, 0xFF00, 0x1F600}
+	for k := 0; k < 24; k++ {
+		switch r.Intn(4) {
+		case 0: // replace an ASCII byte by a character with the same low byte
+			if len(s) > 0 {
+				i := r.Intn(len(s))
+				if s[i] < 0x80 {
+					ch := string(bases[r.Intn(len(bases))] + rune(s[i]))
+					out(append(append(append([]byte{}, s[:i]...), ch...), s[i+1:]...))
+				}
+			}
+		case 1: // insert a character with the low byte of an operator, digit or space
+			i := r.Intn(len(s) + 1)
+			lb := []byte("*+-/^05x ")[r.Intn(9)]
+			ch := string(bases[r.Intn(len(bases))] + rune(lb))
+			out(append(append(append([]byte{}, s[:i]...), ch...), s[i:]...))
+		case 2: // insert one of the Unicode inserts
+			i := r.Intn(len(s) + 1)
+			out(append(append(append([]byte{}, s[:i]...), ins[r.Intn(len(ins))]...), s[i:]...))
+		default: // replace a byte by an operator-low-byte character (keeps the token shape)
+			if len(s) > 0 {
+				i := r.Intn(len(s))
+				lb := []byte("*+-/^")[r.Intn(5)]
+				ch := string(bases[r.Intn(len(bases))] + rune(lb))
+				out(append(append(append([]byte{}, s[:i]...), ch...), s[i+1:]...))
+			}
+		}
+	}
+}
+
 func main() {
 	lib.Main(lib.Prop{
 		ID:     "C13",
@@ -981,5 +1142,6 @@ func main() {
 			return len(s) >= 2
 		},
 		PanicClass: panicClass,
+		Neighbours: neighbours,
 	})
 }
